@@ -16,7 +16,7 @@ func VerifLemma_C16A_LintV2() {
 	ext := getExternalLintV2ForLintConfig(lc, dir)
 	lc2, err := getLintConfigForExternalLintV2(FileVersionV2, ext, dir, verifNondetBool())
 	verifCover("converted")
-	if verifKnown("F3-disabled-check-config-not-written", lc.Disabled()) {
+	if vKnownF3Disabled(lc.Disabled()) {
 		return
 	}
 	verifAssert(err == nil, "external lint (v2) written for a valid config reads back without error")
@@ -38,7 +38,7 @@ func VerifLemma_C16A_LintV1() {
 	ext := getExternalLintV1Beta1V1ForLintConfig(lc, ".")
 	lc2, err := getLintConfigForExternalLintV1Beta1V1(fileVersion, ext, ".", true)
 	verifCover("converted")
-	if verifKnown("F3-disabled-check-config-not-written", lc.Disabled()) {
+	if vKnownF3Disabled(lc.Disabled()) {
 		return
 	}
 	verifAssert(err == nil, "external lint (v1) written for a valid config reads back without error")
@@ -67,7 +67,7 @@ func VerifLemma_C16A_Breaking() {
 	ext := getExternalBreakingForBreakingConfig(bc, dir)
 	bc2, err := getBreakingConfigForExternalBreaking(fileVersion, ext, dir, verifNondetBool())
 	verifCover("converted")
-	if verifKnown("F3-disabled-check-config-not-written", bc.Disabled()) {
+	if vKnownF3Disabled(bc.Disabled()) {
 		return
 	}
 	verifAssert(err == nil, "external breaking written for a valid config reads back without error")
